@@ -494,20 +494,26 @@ fn op(
                 );
             }
             (Temporary::Register(source_register_1), Temporary::Spill(source_position_2)) => {
+                // the other source may be the scratch register `TEMP` itself (e.g., the address of
+                // a jump table), so we must not overwrite it
+                let scratch = if source_register_1 == TEMP { TEMP2 } else { TEMP };
                 instructions.push(Code::LDR(
-                    TEMP,
+                    scratch,
                     Register::SP,
                     stack_offset(source_position_2),
                 ));
-                op(target_register, source_register_1, TEMP, instructions);
+                op(target_register, source_register_1, scratch, instructions);
             }
             (Temporary::Spill(source_position_1), Temporary::Register(source_register_2)) => {
+                // the other source may be the scratch register `TEMP` itself, so we must not
+                // overwrite it
+                let scratch = if source_register_2 == TEMP { TEMP2 } else { TEMP };
                 instructions.push(Code::LDR(
-                    TEMP,
+                    scratch,
                     Register::SP,
                     stack_offset(source_position_1),
                 ));
-                op(target_register, TEMP, source_register_2, instructions);
+                op(target_register, scratch, source_register_2, instructions);
             }
             (Temporary::Spill(source_position_1), Temporary::Spill(source_position_2)) => {
                 instructions.push(Code::LDR(
